@@ -213,6 +213,9 @@ def run(ctx):
 
     intersect_operands(ctx, "C07-R3")
 
+    # ---- R4: the only token removed from every mask is the bare marker token (or none): shared with C19-R2
+    ctx.import_clauses("c19", "C19-R2", ["marker-"], "C07-R4")
+
     # ---- R2: a valid token must not disappear from the mask: speculative rows are never re-used across trie
     # branches (shared with C01-R2 / C11-R3; anchored file parser/src/earley/parser.rs)
     from . import c11 as _c11
